@@ -76,6 +76,7 @@ func (m *memtable) add(vector []float32, text string, metadata map[string]interf
 	size := m.estimateDocumentSize(vector, text, metadata)
 	m.sizeUsed.Add(size)
 	m.numDocs.Add(1)
+	verifHook("mt.add.done", id)
 
 	return id, nil
 }
@@ -107,6 +108,7 @@ func (m *memtable) addWithID(id uint32, vector []float32, text string, metadata 
 	size := m.estimateDocumentSize(vector, text, metadata)
 	m.sizeUsed.Add(size)
 	m.numDocs.Add(1)
+	verifHook("mt.add.done", id)
 
 	return nil
 }
@@ -282,6 +284,7 @@ func (mq *memtableQueue) add(vector []float32, text string, metadata map[string]
 
 	mutable := mq.mutable
 	mq.mu.Unlock()
+	verifHook("mq.add.chosen", uint32(0))
 
 	return mutable.add(vector, text, metadata)
 }
@@ -297,6 +300,7 @@ func (mq *memtableQueue) addWithID(id uint32, vector []float32, text string, met
 
 	mutable := mq.mutable
 	mq.mu.Unlock()
+	verifHook("mq.add.chosen", id)
 
 	return mutable.addWithID(id, vector, text, metadata)
 }
@@ -333,6 +337,7 @@ func (mq *memtableQueue) rotateNoLock() {
 
 	// Add to queue
 	mq.queue = append(mq.queue, mq.mutable)
+	verifHook("mq.rotated", len(mq.queue))
 }
 
 // list returns all memtables (oldest first, including mutable).
